@@ -32,6 +32,8 @@ pub struct WireState {
     pub write_yield: bool,
     pub write_yielded: bool,
     pub read_dropped: bool,
+    /// A read reported end-of-stream (returned 0) at least once.
+    pub eof_reported: bool,
     pub write_dropped: bool,
     pub log_writes: bool,
     /// Log every successful write call with the documents it carried (C02).
@@ -119,6 +121,7 @@ impl ReadHalf for R {
                         if w.log_reads {
                             ev(json!({"ev":"read_eof","c":tag}));
                         }
+                        w.eof_reported = true;
                         Poll::Ready(Ok(0))
                     } else {
                         Poll::Pending
